@@ -544,3 +544,105 @@ func c02Handover(w *W) {
 	}
 	w.Delivery += len(rb.got) + len(rc.got)
 }
+
+// c02Leaver: PUSH with a worker that takes one job and leaves at once (the
+// connection ends the moment its first message has been handed over), next to
+// a worker that stays. Whether the library learns of the departure before or
+// after its sending goroutine has come back from that write is the
+// scheduler's choice. Once the leaver is gone only live connections remain:
+// every message accepted from then on reaches the worker that stayed, once.
+func c02Leaver(w *W) {
+	kind := []string{"push", "xpush"}[w.Choose(simrt.SShape, 2)]
+	wq := []int{1, 2, 128}[w.Choose(simrt.SShape, 3)]
+	rounds := 1 + w.Choose(simrt.SShape, 4)
+	stayFirst := w.Choose(simrt.SShape, 2) == 0
+	w.SetShape("kind", kind)
+	w.SetShape("wq", wq)
+	w.SetShape("rounds", rounds)
+	mn := w.UseMsgNet()
+	addr := w.Addr("msg")
+	s := w.Sock(kind)
+	defer s.Close()
+	mustSet(w, s, mangos.OptionWriteQLen, wq)
+	mustSet(w, s, mangos.OptionSendDeadline, 5*time.Second)
+	if err := w.ListenOn(s, addr); err != nil {
+		w.Failf("HARNESS/listen", "%v", err)
+		return
+	}
+	var stay *MsgPipe
+	if stayFirst {
+		stay = mn.Connect(addr)
+		w.Settle()
+	}
+	n := 0
+	send := func(tag string) bool {
+		n++
+		body := fmt.Sprintf("%s-%d", tag, n)
+		c := w.Do("Send "+body, func() (interface{}, error) { return nil, s.Send([]byte(body)) })
+		w.Settle()
+		if !c.Returned() {
+			c.Wait(6 * time.Second)
+		}
+		if !c.Returned() || c.Err != nil {
+			w.Failf("C02/send-never-completes-after-peer-loss:"+kind, "%s (WriteQLen %d): a worker that stays is connected and takes everything, yet Send(%s) returned=%v err=%v", kind, wq, body, c.Returned(), c.Err)
+			return false
+		}
+		return true
+	}
+	for r := 0; r < rounds && !w.Failed(); r++ {
+		leaver := mn.ConnectWith(addr, func(p *MsgPipe) {
+			p.OnSend = func(WireMsg) {
+				w.Fault("close")
+				p.ClosePeer()
+			}
+		})
+		w.Settle()
+		if stay == nil {
+			stay = mn.Connect(addr)
+			w.Settle()
+		}
+		if leaver == nil || stay == nil {
+			w.Failf("HARNESS/connect", "no connection")
+			return
+		}
+		// jobs until the leaver has had its one
+		for j := 0; j < 6 && leaver.Open() && !w.Failed(); j++ {
+			if !send("job") {
+				return
+			}
+		}
+		if leaver.Open() {
+			w.Probe("leaver-never-served")
+			leaver.ClosePeer()
+		}
+		w.Sleep(time.Millisecond)
+		w.Settle()
+		w.Op("round %d: the leaver has gone, %s stays", r, stay.Name)
+		// only the worker that stays is connected now
+		var after []string
+		for j := 0; j < 2+w.Choose(simrt.SProg, 3) && !w.Failed(); j++ {
+			if !send("after") {
+				return
+			}
+			after = append(after, fmt.Sprintf("after-%d", n))
+		}
+		w.Sleep(10 * time.Millisecond)
+		w.Settle()
+		got := map[string]int{}
+		for _, m := range stay.Sent() {
+			got[string(m.Body)]++
+		}
+		for _, a := range after {
+			if got[a] != 1 {
+				w.Failf("C02/lost-after-peer-loss:"+kind, "%s (WriteQLen %d): a worker took one job and left; after that only %s was connected (and takes everything); the message %q accepted then reached it %d times", kind, wq, stay.Name, a, got[a])
+				return
+			}
+			w.Delivery++
+		}
+		w.Probe("worker-took-one-job-and-left")
+	}
+}
+
+func init() {
+	register(&Scenario{Name: "push-worker-takes-one-job-and-leaves", Prop: "C02", Horizon: time.Hour, Weight: 1, Run: c02Leaver})
+}
